@@ -424,6 +424,23 @@ func readFileWithOverlay(l *core.Ledger, fname string) ([]byte, error) { return 
 // boolean parameter is classified by the constant passed at the call.
 func flagOp(cc *ssa.CallCommon) (op string, ok bool) {
 	f := cc.StaticCallee()
+	// the flag as an atomic.Bool field operated on directly
+	if f != nil && f.Signature.Recv() != nil && isNamed(f.Signature.Recv().Type(), "sync/atomic", "Bool") && len(cc.Args) > 0 {
+		switch f.Name() {
+		case "Load":
+			return "get", true
+		case "Store":
+			if len(cc.Args) == 2 {
+				if k, isC := cc.Args[1].(*ssa.Const); isC && k.Value != nil && k.Value.Kind() == constant.Bool {
+					if constant.BoolVal(k.Value) {
+						return "set", true
+					}
+					return "clear", true
+				}
+			}
+		}
+		return "", false
+	}
 	if f == nil || f.Signature.Recv() == nil || !isNamed(f.Signature.Recv().Type(), core.RootModule, "atomicFlag") || len(cc.Args) == 0 {
 		return "", false
 	}
